@@ -27,10 +27,10 @@ func TestC19(t *testing.T) {
 	c.Rule("tables: every (package, name) entry of env.Packages and env.PackageTypes of the tree under test, enumerated completely; each entry is one distinct non-trivial case (key = package.name)")
 
 	runTables(c)
-	h.Run(c, "range", c.N(6000, 40000), genRange, rangeOracle)
-	h.Run(c, "keys", c.N(5000, 40000), genKeys, keysOracle)
-	h.Run(c, "len", c.N(5000, 40000), genLen, lenOracle)
-	h.Run(c, "typeof", c.N(6000, 40000), genType, typeOracle)
-	h.Run(c, "conv", c.N(16000, 120000), genConv, convOracle)
-	h.Run(c, "misuse", c.N(5000, 40000), genMisuse, misuseOracle)
+	h.Run(c, "range", c.N(15000, 60000), genRange, rangeOracle)
+	h.Run(c, "keys", c.N(12000, 50000), genKeys, keysOracle)
+	h.Run(c, "len", c.N(12000, 50000), genLen, lenOracle)
+	h.Run(c, "typeof", c.N(12000, 50000), genType, typeOracle)
+	h.Run(c, "conv", c.N(50000, 200000), genConv, convOracle)
+	h.Run(c, "misuse", c.N(12000, 50000), genMisuse, misuseOracle)
 }
